@@ -55,8 +55,23 @@ def case_strategy(draw):
     return case
 
 
+@st.composite
+def tie_case(draw):
+    """Caller-labelled instances with exactly tied candidates: the tie is resolved by label order, which no
+    transformation changes."""
+    pred, ref = draw(gen.tie_instance_pair())
+    mm = draw(st.sampled_from(["IOU", "DSC"]))
+    kind = draw(st.sampled_from(["naive", "naive", "naive_m2o", "merge"]))
+    case = {"pred": pred.tolist(), "ref": ref.tolist(), "dtype": draw(st.sampled_from(["uint8", "uint16", "uint64"])), "input": "UNMATCHED_INSTANCE", "backend": None,
+            "matcher": {"kind": "merge" if kind == "merge" else "naive", "metric": mm, "thr": {"v": draw(st.sampled_from([0.0, 0.25, 1.0 / 3.0] if mm == "IOU" else [0.0, 0.4, 0.5]))}, "m2o": kind == "naive_m2o"},
+            "decision": None, "layout": "C", "primes": []}
+    case["transforms"] = [draw(transform(pred.ndim)) for _ in range(3)]
+    case["gmetrics"] = ["DSC", "IOU", "ASSD"]
+    return case
+
+
 def searches(tier):
-    return [("transform", case_strategy(), BUDGET[tier])]
+    return [("transform", case_strategy(), BUDGET[tier]), ("tied_candidates", tie_case(), max(20, BUDGET[tier] // 6))]
 
 
 def apply(t, pred, ref):
@@ -87,6 +102,12 @@ def check(case, stats):
     # voxel order changes under the transformations, so an ASSD score exactly at a threshold may move by an ulp
     exps, complete, info = PM.expected_results(pred, ref, cfg, assd_exact_ok=False)
     unique = complete and len(exps) == 1
+    # With instance labels given by the caller, tied candidates are resolved by label order, which no transformation
+    # touches; IoU and Dice are computed from voxel counts, so their scores are bit-identical after any transformation.
+    # Then the whole result must be invariant even when the reference model sees several tie orders. (Semantic input
+    # gets its instance labels from the component scan order, and ASSD scores may move by an ulp.)
+    label_tiebreak = (cfg["input"] == "UNMATCHED_INSTANCE" and bool(cfg.get("matcher")) and cfg["matcher"]["metric"] in ("IOU", "DSC")
+                      and not (cfg.get("decision") and cfg["decision"][0] == "ASSD"))
     ev = lib.evaluator(cfg)
     base = meta.observe(H.lib_call(ev.evaluate, pred, ref)["ungrouped"][0])
     tp = base["dict"].get("tp", 0)
@@ -107,7 +128,9 @@ def check(case, stats):
         p2c, r2c = p2.copy(), r2.copy()
         ev2 = lib.evaluator(cfg)
         tr = meta.observe(H.lib_call(ev2.evaluate, p2, r2)["ungrouped"][0])
-        only = None if unique else ("num_ref_instances", "global_bin_dsc", "global_bin_iou", "global_bin_assd")
+        only = None if unique or label_tiebreak else ("num_ref_instances", "global_bin_dsc", "global_bin_iou", "global_bin_assd")
+        if not unique and label_tiebreak:
+            stats.count("ambiguous_cases_compared_completely")
         msg = meta.diff(base, tr, only=only)
         if msg:
             raise Violation(f"result changes under transformation {t}: {msg}")
